@@ -129,6 +129,22 @@ Theorem published_rdataset_objects_never_mutated :
 Proof. exact published_rdatasets_never_mutated. Qed.
 Print Assumptions published_rdataset_objects_never_mutated.
 
+(* all-or-nothing for the published triple (rdataset objects, node objects, node map) of the object model *)
+Theorem object_level_atomic_every_crash_point :
+  forall c ops k z t, no_commit ops -> snd (o_run_with c ops (Some k) z t) = z.
+Proof. exact o_atomic_crash_point. Qed.
+Print Assumptions object_level_atomic_every_crash_point.
+
+Theorem object_level_atomic_without_commit :
+  forall c ops z t, no_commit ops -> snd (o_run_manual c ops z t) = z.
+Proof. exact o_atomic_no_commit. Qed.
+Print Assumptions object_level_atomic_without_commit.
+
+Theorem object_level_ended_refuses_all :
+  forall c o z (t : txn (S:=over)), t_ended t = true -> o_step c o z t = Lib eAlreadyEnded.
+Proof. exact o_ended_refuses. Qed.
+Print Assumptions object_level_ended_refuses_all.
+
 (* commit (incl. the ImmutableVersion wrapping of versioned / B-tree zones) only allocates new objects *)
 Theorem commit_never_mutates_objects :
   forall c v,
